@@ -243,6 +243,34 @@ VARIANTS += [
 ]
 
 
+# ---- round 4 (DESIGN §16)
+VARIANTS += [
+    V("twin-index-or-form", ["C02"], F, "            if not (-npts <= index < npts):\n                raise IndexError", "            if index < -npts or index >= npts:\n                raise IndexError", None, None, "index range as two comparisons", twin=True),
+    V("second-index-strict", ["C02"], F, "        if not (0 <= index <= self.degree):", "        if not (0 <= index < self.degree):", "INDEX-RANGE", "__valid_second_index", "sub-degree p itself refused"),
+    V("twin-count-local", ["C12"], C, "        assert len(points) >= self.npts\n", "        npoints = len(points)\n        assert npoints >= self.npts\n", None, None, "count through a local", twin=True),
+    V("twin-sum-with-start", ["C16"], C, "                    newpoint = 0 * numerators[0]\n                    for j, point in enumerate(numerators):\n                        newpoint = newpoint + (line[j] * invweight) * point\n", "                    newpoint = sum(((line[j] * invweight) * point for j, point in enumerate(numerators)), 0 * numerators[0])\n", None, None, "sum() with a start value of the point type", twin=True),
+    V("twin-copy-generator", ["C15"], C, "            curve.ctrlpoints = [copy(point) for point in self.ctrlpoints]", "            curve.ctrlpoints = tuple(copy(point) for point in self.ctrlpoints)", None, None, "copied points in a tuple", twin=True),
+    V("copy-list-of-same", ["C15"], C, "            curve.ctrlpoints = [copy(point) for point in self.ctrlpoints]", "            curve.ctrlpoints = list(self.ctrlpoints)", "FRESH", "__deepcopy__", "new list, same point objects"),
+    V("twin-zeros-like-dtype", ["C09"], H, "        avals = np.zeros(npts, dtype=\"float64\")\n        for i in range(npts):\n            diff = knotvector[i + degree] - knotvector[i]", "        avals = np.zeros_like(knotvector[:npts], dtype=\"float64\")\n        for i in range(npts):\n            diff = knotvector[i + degree] - knotvector[i]", None, None, "zeros_like with an explicit dtype", twin=True),
+    V("twin-error-accumulated", ["C05", "C11"], C, "            error = np.dot(np.moveaxis(numerators, 0, -1), np.dot(materror, numerators))\n            error = np.max(np.abs(error))\n            error += abs(np.dot(oldweights, np.dot(materror, oldweights)))\n", "            error = 0\n            for values in (numerators, oldweights):  # homogeneous coordinates\n                quad = np.dot(np.moveaxis(values, 0, -1), np.dot(materror, values))\n                error += np.max(np.abs(quad))\n", None, None, "error accumulated in a loop", twin=True),
+    V("twin-float-probe-named", ["C03", "C16"], H, "    def __valid_single(self, node: float) -> bool:\n        try:\n            float(node)  # Verify if it's a number", "    def __valid_single(self, node: float) -> bool:\n        try:\n            _probe = float(node)  # Verify if it's a number", None, None, "probe result kept in an unused local", twin=True),
+    V("twin-times-lt-one", ["C14", "C06"], C, "        if not isinstance(times, int) or times <= 0:\n            raise ValueError(f\"times = {times}\")", "        if not isinstance(times, int) or times < 1:\n            raise ValueError(f\"times = {times}\")", None, None, "times < 1", twin=True),
+    V("shift-float-value", ["C18"], K, "        vector = tuple(knoti + value for knoti in self)\n        self.internal = ImmutableKnotVector(vector)", "        value = float(value)\n        vector = tuple(knoti + value for knoti in self)\n        self.internal = ImmutableKnotVector(vector)", "E8", "shift", "shift amount cast to float"),
+]
+
+
+VARIANTS += [
+    V("rev-F34", ["C10"], CA, "            nodes = tuple((1 - node) * start + node * end for node in nodes_0to1)\n            curve_vals = tuple(piece.eval(node) for node in nodes)", "            nodes = tuple(start + (end - start) * node for node in nodes_0to1)\n            curve_vals = tuple(piece.eval(node) for node in nodes)", "END-EXACT", "Integrate.scalar", "closed nodes mapped by lo + (hi - lo) * t", near=169),
+    V("rev-F35", ["C12"], C, "            nodes = tuple((1 - node) * umin + node * umax for node in nodes_0to1)", "            nodes = tuple(umin + (umax - umin) * node for node in nodes_0to1)", "END-EXACT", "fit_points", "default nodes mapped by lo + (hi - lo) * t"),
+    V("twin-clamped-nodes", ["C12"], C, "            nodes = tuple((1 - node) * umin + node * umax for node in nodes_0to1)", "            nodes = tuple(min(umax, max(umin, umin + (umax - umin) * node)) for node in nodes_0to1)", None, None, "naive map, clamped to the interval", twin=True),
+]
+
+
+VARIANTS += [
+    V("twin-linspace-tuple", ["C19"], A, "        tparams = np.linspace(umin, umax, 5)\n        tvalues = {umin, umax}", "        tparams = tuple(np.linspace(umin, umax, 5))\n        tvalues = {umin, umax}", None, None, "linspace wrapped in a tuple", twin=True),
+]
+
+
 def _sources(src_dir: str, v: dict) -> Optional[dict]:
     edits = v.get("edits") or [(v["module"], v["old"], v["new"])]
     out: Dict[str, str] = {}
